@@ -160,8 +160,9 @@ if (index < 0) {
   return list.data[index];
 }
 
-template <typename T>
-void __redu_list_append(__redu_list<T> &list, const T &value) {
+template <typename T, typename V>
+void __redu_list_append(__redu_list<T> &list, const V &item) {
+  T value = static_cast<T>(item);
   T *next = new T[list.size + 1];
   for (size_t i = 0; i < list.size; ++i) {
     next[i] = list.data[i];
@@ -172,8 +173,9 @@ void __redu_list_append(__redu_list<T> &list, const T &value) {
   ++list.size;
 }
 
-template <typename T>
-void __redu_list_remove(__redu_list<T> &list, const T &value) {
+template <typename T, typename V>
+void __redu_list_remove(__redu_list<T> &list, const V &item) {
+  T value = static_cast<T>(item);
   if (list.size == 0) {
     return;
   }
